@@ -143,6 +143,8 @@ func Plan(prop, tier string) []Mode {
 			conc("stable", "race", pick(800, 30000), pick(50, 500), 10, 2, 4, 16),
 			conc("churn", "plain", pick(1000, 40000), pick(50, 500), 12, 2, 4, 16, 1),
 			conc("churn", "race", pick(400, 15000), pick(40, 400), 10, 2, 4, 16),
+			conc("churn-sub", "plain", pick(600, 30000), pick(50, 500), 12, 2, 4, 16, 1),
+			conc("churn-sub", "race", pick(200, 8000), pick(40, 400), 10, 2, 4, 16),
 			conc("churn-async", "plain", pick(64, 640), 4, 8, 4, 16),
 			conc("churn-withonly", "plain", pick(32, 320), 4, 8, 4, 16),
 		}
